@@ -127,6 +127,32 @@ def run(scn, sb):
         if o1[0] != 'ok':
             viol.append({'cls': 'statistics-stage-fails', 'detail': o1[1][:400]})
             return res
+        # ---- "centroid" means the mean log2(CPM+1) profile of the cluster's OWN cells: the profiles in the statistics
+        # file (from which the query is built below) are compared with the direct computation from the reference
+        # that was written (unlabelled cells excluded), so a statistics stage that is self-consistently wrong cannot
+        # carry the composition through (seeded change C18-single-cluster-chunk-keeps-unlabelled)
+        import h5py
+        with h5py.File(stats, 'r') as f:
+            c2r0 = json.loads(f['cluster_to_row'][()].decode())
+            cols0 = json.loads(f['col_names'][()].decode())
+            ssum0 = f['sum'][()]
+            n0 = f['n_cells'][()]
+        l2 = model.log2cpm(W.ref_X)
+        row_of = {cid: i for i, cid in enumerate(W.ref_ids)}
+        gi = [W.genes.index(g) for g in cols0]
+        for lf, cells in sorted(W.leaf_cells().items()):
+            if lf not in c2r0 or not cells:
+                continue
+            sel = [row_of[c] for c in cells]
+            direct = l2[sel][:, gi].mean(axis=0)
+            k = c2r0[lf]
+            if int(n0[k]) != len(sel) or not np.allclose(ssum0[k] / max(1, n0[k]), direct, rtol=1e-5, atol=1e-6):
+                viol.append({'cls': 'centroid-in-statistics-file-differs-from-direct',
+                             'detail': 'leaf %r: n_cells %r in the file, %d cells carry the label; largest profile '
+                                       'difference %.3g' % (lf, int(n0[k]), len(sel),
+                                                            float(np.abs(ssum0[k] / max(1, n0[k]) - direct).max()))})
+                return res
+        res['probes']['centroids_checked_against_direct'] = 1
         # ---- optional stage 1b: truncate the statistics file to a sub-sequence of the levels
         if scn.get('truncate') and len(tax.hierarchy) >= 2:
             import copy
